@@ -10,7 +10,7 @@ import vloop
 
 LEVEL = "proof"
 MANIFEST = dict(
-    text='Machine-checked Lean 4 proof, for every call sequence of any length and interleaving, that both counter implementations (translated statement-by-statement from the source on every run) hand out 1+k%191 / 192+k%64 (closed form), stay in range, are successors in their own cycle; that for ANY number of threads, any calls per thread and ANY scheduler interleaving the micro-operations of the threaded counter (acquire / snapshot / store / release, shape regenerated from the source) the numbers handed out are exactly those of one sequential caller (threads_serialise, by an inductive invariant; a snapshot taken outside the lock provably duplicates); and that every call site picks the right counter (decide over the regenerated call-site table). Tie: translator + full differential sweep of every reachable counter state against both real objects; wire clause checked on datagrams built by the real clients. Session 4: the wire clause drives every request-building site of both clients through MORE than one whole cycle of its counter on one connection (all 255 sequence values are seen on the wire): the sequence byte must be in the range of its verb, must be a number the connection counter handed out while that request was built (tap on the public method), and the content length of a verb must not depend on the sequence number. Round 15: ONE spa object connected, written through and disconnected three times - every connection (UDP endpoint) numbers 1, 2, 3 .. and 192, 193 .. on the wire like the first.',
+    text='Machine-checked Lean 4 proof, for every call sequence of any length and interleaving, that both counter implementations (translated statement-by-statement from the source on every run) hand out 1+k%191 / 192+k%64 (closed form), stay in range, are successors in their own cycle; that for ANY number of threads, any calls per thread and ANY scheduler interleaving the micro-operations of the threaded counter (acquire / snapshot / store / release, shape regenerated from the source) the numbers handed out are exactly those of one sequential caller (threads_serialise, by an inductive invariant; a snapshot taken outside the lock provably duplicates); and that every call site picks the right counter (decide over the regenerated call-site table). Tie: translator + full differential sweep of every reachable counter state against both real objects; wire clause checked on datagrams built by the real clients. Session 4: the wire clause drives every request-building site of both clients through MORE than one whole cycle of its counter on one connection (all 255 sequence values are seen on the wire): the sequence byte must be in the range of its verb, must be a number the connection counter handed out while that request was built (tap on the public method), and the content length of a verb must not depend on the sequence number. Round 15: ONE spa object connected, written through and disconnected three times - every connection (UDP endpoint) numbers 1, 2, 3 .. and 192, 193 .. on the wire like the first. Round 16: 140 000 requests and 70 000 commands in a row on each real counter object (past 2^16 / 2^17 calls).',
     note='Trusted: Lean kernel; axioms propext/Classical.choice/Quot.sound only; harness/translate.py+py2lean.py (cross-checked by the sweep); atomicity of threading.Lock; the abstraction of a lock region to one snapshot read + one write (the lock shape is extracted by the translator and cross-checked by pausing a real thread before every source line of the counter while a second real thread makes a call).',
     technique='Lean 4 induction over call sequences on source-translated definitions + decide over generated call-site table',
     design='5/C16',
@@ -75,6 +75,30 @@ def search_counters(ctx, seqs):
             states.add((o, last[(o, False)], last[(o, True)]))      # (object, last protocol number, last command number) - from results only
             ctx.count("evaluations")
     ctx.cov["distinct_counter_states_visited"] = len(states)
+
+
+def search_long_runs(ctx, only=None):
+    """one connection used for a LONG time: 140 000 requests, 70 000 commands in a row on each real counter object (more than 2^16 and
+    2^17 calls - any bounded bookkeeping inside the counter wraps), every number the successor of the one before"""
+    for o in ("a", "s"):
+        for k, n in ((False, 140000), (True, 70000)):
+            if only is not None and only[:2] != [o, k]:
+                continue
+            obj = _impl_objects()[o]
+            last = 191 if k else 0
+            for i in range(n if only is None else only[2]):
+                try:
+                    r = obj.get_and_increment_sequence_counter(k)
+                except Exception as e:  # noqa
+                    r = f"raised {type(e).__name__}"
+                exp = _succ(k, last)
+                if r != exp:
+                    ctx.violation(f"counter:long-run:{o}:{'cmd' if k else 'proto'}", {"kind": "long-run", "case": [o, k, i + 1]},
+                                  f"call {i + 1} of one kind on one connection returns {exp} (the successor of {last})", r)
+                    return
+                last = r
+            ctx.count("evaluations", n)
+            ctx.hist("long_runs", f"{o}:{'cmd' if k else 'proto'}")
 
 
 def correspondence(ctx, seqs):
@@ -582,6 +606,7 @@ def run(ctx):
     search_retry_numbers(ctx)
     search_thread_schedules(ctx)
     search_reconnected_object(ctx)
+    search_long_runs(ctx)
     if not ctx.quick:
         search_threads(ctx)
     ctx.cov["distinct_nontrivial"] = ctx.cov.get("distinct_counter_states_visited", 0)
@@ -595,6 +620,9 @@ def run(ctx):
 def replay(inp):
     from common import Ctx
     ctx = Ctx("C16", "quick", 0)
+    if inp.get("kind") == "long-run":
+        search_long_runs(ctx, only=inp["case"])
+        return bool(ctx.violations), ctx.violations[0]["observed"] if ctx.violations else "successors"
     if inp.get("kind") == "reconnected-object":
         search_reconnected_object(ctx)
         return bool(ctx.violations), ctx.violations[0]["observed"] if ctx.violations else "every connection starts over"
